@@ -140,8 +140,90 @@ def _bound(prog, rep, frac):
     return [float(b).hex(), "s"] if ck == "duration" else float(b).hex()
 
 
+_LONG = {"clock": "float", "cap": 10 ** 6, "rep": {"start": (0.0).hex(), "warmup": (10.0).hex(), "length": (2500.0).hex()},
+         "root": [["rel", (1.0).hex(), 0, 5], ["rel", (0.5).hex(), 1, 5]],
+         "nodes": [[["rel", (1.0).hex(), 0, 5], ["obs_c", 1], ["obs_t_rand", 0]],
+                   [["rel_rand", 0, (2.0).hex(), 1, 5], ["obs_p_rand", 0]]]}
+
+
+def enumerate_cases(tier):
+    """two fixed scenarios in which the thread of the PREVIOUS run is still around when the next replication begins"""
+    return [{"kind": "reinit-from-end-listener"}, {"kind": "init-while-slow-handler-after-stop"}]
+
+
+def _run_fixed(case, out):
+    from pydsol.core.utils import DSOLError
+    prog = copy.deepcopy(_LONG)
+    want, _ai, leaked = _fresh_run(prog, [7], 0, False, False, {})
+    if leaked:
+        out.fail("thread-leak", "fresh run")
+    h = Harness(prog)
+    stoch.install(h.model, [7])
+    out.nontrivial = True
+    out.label("fixed:" + case["kind"])
+    try:
+        h.initialize()
+        if case["kind"] == "reinit-from-end-listener":
+            # the next replication is initialised AND started by a listener of END_REPLICATION (a controller that
+            # chains replications): the thread of the ended run must not touch the new run any more
+            box = {}
+
+            def at_end(entry):
+                if "done" in box:
+                    return
+                box["done"] = True
+                try:
+                    h.rec = Recorder()
+                    h.initialize()
+                    h.sim.start()
+                except Exception as e:
+                    box["err"] = e
+            h.rec.hooks["END_REPLICATION"] = at_end
+            h.run_piece(["start"])
+            if "err" in box:
+                out.fail("second-initialize-raised-" + type(box["err"]).__name__, repr(box["err"]))
+                return
+            h.settle(allow_limbo=True)
+        else:
+            # stop() while an event takes longer than stop() waits; until the run thread has left that event the
+            # simulator is still stopping: initialize is refused and the pending events stay
+            probe = {}
+
+            def while_held():
+                n0 = h.sim.eventlist().size()
+                try:
+                    h.sim.initialize(h.model, h.replication)
+                    probe["init"] = "accepted"
+                except DSOLError:
+                    probe["init"] = "refused"
+                except Exception as e:
+                    probe["init"] = type(e).__name__
+                probe["pending"] = [n0, h.sim.eventlist().size()]
+            h.start_pause_after(5, ["start"], hold_until_stop_returned=True, while_held=while_held)
+            if probe.get("init") != "refused" or probe["pending"][0] != probe["pending"][1]:
+                out.fail("initialize-while-running", {"while the run thread was still inside an event": probe})
+                return
+            h.rec = Recorder()
+            h.initialize()
+            h.run_piece(["start"])
+        got = stoch.full_digest(h)
+        for key in ("trace", "clock", "state", "draws", "notifications", "stats"):
+            if got.get(key) != want.get(key):
+                a, b = got.get(key), want.get(key)
+                detail = {"len": [len(a), len(b)]} if isinstance(a, list) and isinstance(b, list) else \
+                    {"got": str(a)[:200], "want": str(b)[:200]}
+                out.fail("second-replication-" + key, detail)
+    finally:
+        if h.finish():
+            out.fail("thread-leak", case["kind"])
+    out.info = {"executed": len(want["trace"])}
+
+
 def run_case(case):
     out = Outcome()
+    if case.get("kind"):
+        _run_fixed(case, out)
+        return out
     prog = case["prog"]
     pr = case["prior"]
     out.label("clock=" + prog["clock"], "prior=" + pr["kind"])
